@@ -208,7 +208,79 @@ def check_cleanup(program, rep):
                   'when the handler dies', why, line=r.lineno)
 
 
+def check_clear_state(program, rep):
+    """EventDispatcher.clear() empties every container created in __init__
+    (queued events hold their arguments - components - strongly)."""
+    disp = evrules.dispatcher_class(program)
+    init = disp.methods.get('__init__')
+    cl = disp.methods.get('clear')
+    if init is None or cl is None:
+        rep.inconclusive('C10.clear-state', f'{disp.module.relpath}:'
+                         'EventDispatcher', 'clear', '__init__/clear missing')
+        return
+    made = []
+    for a in ast.walk(init.node):
+        if isinstance(a, (ast.Assign, ast.AnnAssign)):
+            tg = a.targets if isinstance(a, ast.Assign) else [a.target]
+            v = a.value
+            for t in tg:
+                if norm(t).startswith('self.') and isinstance(
+                        v, (ast.List, ast.Dict, ast.Set, ast.Call)):
+                    made.append(norm(t))
+    cleared = set()
+    for n in ast.walk(cl.node):
+        if isinstance(n, ast.Call) and isinstance(n.func, ast.Attribute) \
+                and n.func.attr == 'clear':
+            cleared.add(norm(n.func.value))
+        if isinstance(n, (ast.Assign, ast.AnnAssign)):
+            for t in (n.targets if isinstance(n, ast.Assign) else [n.target]):
+                cleared.add(norm(t))
+    missing = [m for m in made if m not in cleared]
+    rep.check(not missing and bool(made), 'C10.clear-state', cl.where,
+              ', '.join(made) or 'containers',
+              'clear() empties every container of the dispatcher',
+              f'clear() leaves {", ".join(missing)} untouched: postponed '
+              'events (and the components they carry) survive clear(), stay '
+              'strongly referenced and are replayed on a later enable',
+              line=cl.node.lineno)
+
+
+def check_inline_deref(program, rep):
+    """No weak reference is dereferenced straight into a call anywhere in the
+    dispatcher (fast paths outside the listener loops included)."""
+    disp = evrules.dispatcher_class(program)
+    n_calls = 0
+    for c in [disp] + program.subclasses(disp):
+        for f in c.methods.values():
+            if not any(isinstance(x, ast.Attribute) and x.attr == '_events'
+                       for x in ast.walk(f.node)):
+                continue
+            locals_ = {x.id for x in ast.walk(f.node) if isinstance(
+                x, ast.Name) and isinstance(x.ctx, ast.Store)}
+            for n in ast.walk(f.node):
+                if not isinstance(n, ast.Call) or not n.args:
+                    continue
+                a0 = n.args[0]
+                if isinstance(a0, ast.Call) and not a0.args \
+                        and not a0.keywords and isinstance(
+                            a0.func, ast.Name) and a0.func.id in locals_ \
+                        and isinstance(n.func, ast.Name) \
+                        and n.func.id in locals_:
+                    n_calls += 1
+                    rep.bad('C10.deref', f.where, n,
+                            'a weak reference is dereferenced straight into '
+                            'the callback call: when the handler is already '
+                            'gone the method runs with self=None',
+                            line=n.lineno)
+    if n_calls == 0:
+        rep.ok('C10.deref', f'{disp.module.relpath}:EventDispatcher',
+               'f(ref(), ...) patterns', 'no inline dereference into a call',
+               nontrivial=False)
+
+
 def run(program, rep, tier):
+    check_clear_state(program, rep)
+    check_inline_deref(program, rep)
     check_no_strong(program, rep)
     check_cleanup(program, rep)
     evrules.delivery_sites(program, rep, 'C10', {'deref'})
